@@ -89,8 +89,9 @@ AddRun(o, s) ==
     IF s = <<>> THEN [o |-> o, a |-> 0]
     ELSE IF Len(s) = 1 THEN [o |-> AddOne(o, s[1]), a |-> B2N(Full(o))]
     ELSE LET m == Len(s) \div 2
-             l == AddRun(o, SubSeq(s, 1, m))
-             r == AddRun(l.o, SubSeq(s, m + 1, Len(s)))
+             l == TLCEval(AddRun(o, SubSeq(s, 1, m)))
+             lo == TLCEval(l.o)
+             r == TLCEval(AddRun(lo, SubSeq(s, m + 1, Len(s))))
          IN [o |-> r.o, a |-> l.a + r.a]
 
 (* _count_flag = 0 without touching the block: clear_internal after its delete[] (:218-223), the
